@@ -79,7 +79,7 @@ def assertion_xml(a):
     subj = a.get('subject')
     if subj is not None:
         out.append('<saml:Subject>')
-        out.append(name_id_xml(subj.get('name_id')))
+        out.append(subj['raw_id'] if subj.get('raw_id') else name_id_xml(subj.get('name_id')))     # raw_id: ready-made identifier element, e.g. an EncryptedID
         for sc in subj.get('confirmations', []):
             d = sc.get('data')
             out.append('<saml:SubjectConfirmation Method=%s>' % _qa(sc.get('method', BEARER)))
@@ -449,7 +449,7 @@ def encrypt_raw(plaintext, cert_idx, typ='Element', enc_id='ED2'):
     from cryptography.hazmat.primitives import hashes
     from cryptography.hazmat.primitives.asymmetric import padding
     from cryptography.hazmat.primitives.ciphers import Cipher, algorithms, modes
-    data = plaintext.encode('utf-8')
+    data = plaintext if isinstance(plaintext, bytes) else plaintext.encode('utf-8')
     key, iv = _os.urandom(16), _os.urandom(16)
     padn = 16 - (len(data) % 16)
     padded = data + b'\x00' * (padn - 1) + bytes([padn])
@@ -459,7 +459,8 @@ def encrypt_raw(plaintext, cert_idx, typ='Element', enc_id='ED2'):
         pub = x509.load_pem_x509_certificate(f.read()).public_key()
     ek = pub.encrypt(key, padding.OAEP(mgf=padding.MGF1(hashes.SHA1()), algorithm=hashes.SHA1(), label=None))
     b = lambda x: base64.b64encode(x).decode('ascii')
-    return ('<xenc:EncryptedData xmlns:xenc="%s" Id="%s" Type="http://www.w3.org/2001/04/xmlenc#%s"><xenc:EncryptionMethod Algorithm="%saes128-cbc"/>'
+    tattr = '' if typ is None else ' Type="http://www.w3.org/2001/04/xmlenc#%s"' % typ      # without Type the decryptor hands back the raw octets
+    return ('<xenc:EncryptedData xmlns:xenc="%s" Id="%s"%s><xenc:EncryptionMethod Algorithm="%saes128-cbc"/>'
             '<ds:KeyInfo xmlns:ds="%s"><xenc:EncryptedKey Id="%s-K"><xenc:EncryptionMethod Algorithm="%srsa-oaep-mgf1p"/><xenc:CipherData><xenc:CipherValue>%s</xenc:CipherValue>'
             '</xenc:CipherData></xenc:EncryptedKey></ds:KeyInfo><xenc:CipherData><xenc:CipherValue>%s</xenc:CipherValue></xenc:CipherData></xenc:EncryptedData>') % (
-        XENC, enc_id, typ, XENC, DS, enc_id, XENC, b(ek), b(ct))
+        XENC, enc_id, tattr, XENC, DS, enc_id, XENC, b(ek), b(ct))
